@@ -1,0 +1,61 @@
+//go:build verif
+
+// Contracts for the slipvc verifier (see /verif/DESIGN.md). Comment-only file.
+
+package generic
+
+// ---------------------------------------------------------------------------
+// C10: the outcome of a generic call depends only on the methods defined at
+// that moment. The dispatch cache and the single-method fast path are pure
+// accelerations: every writer of the method table leaves the cache empty and
+// the fast path consistent with the table.
+
+// the fast path is only set when the table has exactly one method, stored
+// under the all-t key, with a primary and no daemons or wrapper
+//@ define dc_sound(a) = a.defaultCaller != nil ==> (len(a.methods) == 1 && has(a.methods, a.defaultKey) && len(a.methods[a.defaultKey].Combinations) == 1 && a.methods[a.defaultKey].Combinations[0].Primary == a.defaultCaller && a.methods[a.defaultKey].Combinations[0].Before == nil && a.methods[a.defaultKey].Combinations[0].After == nil && a.methods[a.defaultKey].Combinations[0].Wrap == nil)
+
+//@ func generic.(*Aux).updateDefaultCaller
+//@   property C10
+//@   ensures dc-sound: dc_sound(aux)
+//@   ensures cache-kept: aux.cache == old(aux.cache) && aux.methods == old(aux.methods)
+//@   loop loop(: invariant dc-sound: dc_sound(aux)
+
+//@ func generic.(*Aux).AddMethod
+//@   property C10
+//@   option trace
+//@   ensures stored: has(aux.methods, key) && aux.methods[key] == method
+//@   ensures cache-empty: len(aux.cache) == 0
+//@   ensures dc-sound: dc_sound(aux)
+//@   ensures released: $held == 0
+
+//@ func generic.addMethodCaller
+//@   property C10
+//@   option trace
+//@   ensures cache-empty: len(aux.cache) == 0
+//@   ensures dc-sound: dc_sound(aux)
+//@   ensures registered: has(aux.methods, key) && aux.methods[key] == result && len(result.Combinations) >= 1
+//@   ensures released: $held == 0
+
+//@ func generic.(*RemoveMethod).Call
+//@   property C10
+//@   option trace
+//@   on-call updateDefaultCaller cache-cleared-first: len(aux.cache) == 0
+//@   ensures released: $held == 0
+
+// a call looks the effective method up, builds and caches it in one critical
+// section (a defmethod cannot slip in between), and calls it outside the lock
+//@ func generic.(*Aux).Call
+//@   property C10 C17
+//@   option trace
+//@   on-call buildCacheMeth under-lock: $held == 1 && $nunlock == 0
+//@   on-map-update cache same-critical-section: $held == 1 && $nunlock == 0
+//@   ensures released: $held == 0
+
+// applicable methods are collected with the leftmost required argument most
+// significant: the recursion starts at argument 0 and advances by one
+//@ func generic.(*Aux).buildCacheMeth
+//@   property C10
+//@   on-call collectMethods first-argument-first: $arg2 == 0 && len($arg1) == aux.reqCnt
+//@ func generic.(*Aux).collectMethods
+//@   property C10
+//@   on-call collectMethods next-argument: $arg2 == ki + 1
